@@ -3,6 +3,7 @@ the protocol as integers or `(num den)` pairs, i.e. the exact value of the binar
 literal that Python's `eval` would use - never decimal text) -/
 import MysticVerif.Basic.Proto
 import MysticVerif.Model.Symbolic
+import MysticVerif.Model.Symbolic2
 
 namespace MysticVerif.DrvC12
 open MysticVerif MysticVerif.Sym
@@ -41,6 +42,27 @@ def parseItem : Val → Option (Item Rat)
   | .list [.sym "rat", c, p, q, r] => do some (.rat (← parseForm p) (← parseForm q) (← parseCmp c) (← parseNum r))
   | _ => none
 
+/-- `(c form)` : one term `c * abs(form)` -/
+def parseAbsTerm : Val → Option (Rat × Form Rat)
+  | .list [c, f] => do some (← parseNum c, ← parseForm f)
+  | _ => none
+
+/-- `(absl (terms...) item)` | `(rat2 cmp p a b i c d j m r)` -/
+def parseXItem : Val → Option (XItem Rat)
+  | .list [.sym "absl", ts, it] => do some (.absl (← (← ts.asList?).mapM parseAbsTerm) (← parseItem it))
+  | .list [.sym "rat2", cmp, p, a, b, i, c, d, j, m, r] => do
+    some (.rat2 (← parseForm p) (← parseNum a) (← parseNum b) (← i.asNat?) (← parseNum c) (← parseNum d) (← j.asNat?)
+      (← m.asNat?) (← parseCmp cmp) (← parseNum r))
+  | _ => none
+
+def parseTri : Val → Option (Option Bool)
+  | .sym "zde" => some none
+  | v => do some (some (← v.asBool?))
+
+def showCTok : Option CTok → String
+  | some .le => "le" | some .lt => "lt" | some .ge => "ge" | some .gt => "gt" | some .ne => "ne"
+  | some .eqeq => "eqeq" | some .eq => "eq" | none => "none"
+
 def parseOpt : Val → Option (Option Rat)
   | .sym "none" => some none
   | v => do some (some (← parseNum v))
@@ -62,6 +84,25 @@ def handle : Handler
     let ci := (expand inp).map canonSys
     let co := out.map canonSys
     return s!"ok accept={pB (dnfEquiv ci co)} nin={ci.length} nout={co.length} cin={pDnf ci} cout={pDnf co}"
+  | .sym "validatex" :: args => Id.run do
+    let some inp := (kw? args "inp").bind Val.asList? |>.bind (·.mapM parseXItem) | return "bad-op"
+    let some out := (kw? args "out").bind Val.asList? |>.bind (·.mapM parseLines) | return "bad-op"
+    let ci := (expandX inp).map canonSys
+    let co := out.map canonSys
+    return s!"ok accept={pB (dnfEquiv ci co)} nin={ci.length} nout={co.length} cin={pDnf ci} cout={pDnf co}"
+  | .sym "comparator" :: args => Id.run do
+    let some t := (kw? args "toks").bind Val.asList? |>.bind (·.mapM Val.asBool?) | return "bad-op"
+    match t with
+    | [a, b, c, d, e, f, g] => return s!"ok cmp={showCTok (comparatorOf ⟨a, b, c, d, e, f, g⟩)}"
+    | _ => return "bad-op"
+  | .sym "equals" :: args => Id.run do
+    let some errors := (kw? args "errors").bind Val.asBool? | return "bad-op"
+    let some before := (kw? args "before").bind parseTri | return "bad-op"
+    let some after := (kw? args "after").bind parseTri | return "bad-op"
+    let some c := (kw? args "cmp").bind parseCmp | return "bad-op"
+    match equalsM errors before after with
+    | .zde => return "ok res=zde"
+    | .val b => return s!"ok res={pB b} dec={showCmp (flipDecision c b)}"
   | .sym "cert" :: args => Id.run do
     let some inp := (kw? args "inp").bind parseLines | return "bad-op"
     let some out := (kw? args "out").bind parseLines | return "bad-op"
